@@ -27,6 +27,14 @@ magnitudes, real pre-existing exports, several exports in a row from one databas
 Round 5: series whose time arrays agree within the closeness `export` accepts (rtol 1e-9, atol 1e-12) but not to the last bit
 (`gen_close`, corner cases linspace vs sample number / 10) exported together to every format, and the writers called directly on
 such records (`writers_close`, input kind 'wclose'): one time column, n rows, every data column row for row.
+Round 6: exports with `resample` given as a time ARRAY that is related to the series' own time arrays (`gen_roundoff` /
+`gen_resarr`, corner 'resarr'): series covering (parts of) one nominal grid with their own start, stride and way of computing the
+instants (o+i*h, own origin, arange, linspace, sample number / rate, running sum), resampled to the time array of one of them (whole or
+cut to the common window), to `np.arange(start, end + dt, dt)` as the refusal message of `export` recommends, to linspace over the
+common window, with the first / last instant moved by one bit or by 1e-10 relative -- so that the array ends exactly on, or beyond by
+round-off only, the end of some of the series. Every clause of the round trip applies: refused without touching the target, or one
+time column and the arrays in-memory retrieval returns; for in-memory sources additionally a reference that does not go through the
+library (np.interp of the arrays the series were built from on the requested array).
 Known findings reported through matchers (ids below): F19 (.dat name like time*), F19b (.pkl name 'Time'), F30 (fewer than two
 processed samples), F31 ('.ts' elsewhere in the target path), F32 (resample given as a list + .ts), F-C07-existok (exist_ok given as 0 / numpy.bool_(False): the existing file is overwritten; found by the
 audit, needs an entry in known_findings.json or the repair `not exist_ok`).  The model also encodes
@@ -86,6 +94,11 @@ RULE = ("correspondence: seeded dyadic databases of 1-4 series in the families i
         "such series from memory or from separate pickle / h5 / direct-access / ascii files exported together to every format, windows "
         "ending on a sample of one of them or between samples, force_common_time (written as they are or resampled: both allowed); "
         "the four writers called directly with the common time array and every series' own close time array; "
+        "resample given as a time array related to the series' own arrays: series on parts of one nominal grid (own start, stride 1/2/5, "
+        "instants computed as o+i*h / from the own origin / arange / linspace / sample number over rate / running sum) resampled to the time "
+        "array of one of them (whole, cut to the common window), arange(start, end+dt, dt) as the refusal message recommends, "
+        "arange(start, end+dt/2, dt), linspace over the common window, the first / last instant one bit (or 4 ulp, or 1e-10 relative) "
+        "outside / inside the common window; array or list; the same array object again in a later export; "
         "non-trivial = more than one series or any option; distinct by full case")
 
 EXTS = [".ts", ".dat", ".h5", ".pkl"]
@@ -1359,6 +1372,98 @@ def gen_close(rng, nser):
     return times, kinds, twin
 
 
+# ---- `resample` given as a time array related to the series' own time arrays. The series cover (parts of) one nominal grid o + i*h,
+# each from its own first sample, with its own stride and its own way of computing the instants, so that starts / ends that are
+# nominally the same instant differ by round-off (np.arange(0.3, 10.05, 0.1) ends at 10.000000000000004, linspace(0, 10, 21) at 10.0).
+ROUNDOFF_KINDS = ["base", "own", "arange", "arange", "linspace", "div", "cumsum"]
+
+
+def roundoff_times(o, h, lo, m, cnt, kind):
+    """the instants o + (lo + k*m)*h, k = 0..cnt-1, computed as a caller would"""
+    k = np.arange(cnt)
+    s, d = o + lo * h, m * h
+    base = o + (lo + k * m) * h
+    if kind == "own":
+        t = s + k * d
+    elif kind == "arange":
+        t = np.arange(s, o + (lo + (cnt - 1) * m) * h + d / 2, d)
+    elif kind == "linspace":
+        t = np.linspace(s, o + (lo + (cnt - 1) * m) * h, cnt)
+    elif kind == "div":
+        r = round(1.0 / h)
+        t = o + (lo + k * m) / float(r) if abs(r * h - 1.0) < 1e-9 else o + (lo + k * m) / (1.0 / h)
+    elif kind == "cumsum":
+        t = s + np.concatenate([[0.0], np.cumsum(np.full(cnt - 1, d))])
+    else:
+        t = base
+    if len(t) < 2 or np.any(np.diff(t) <= 0):
+        t = base
+    return [float(v) for v in t]
+
+
+def gen_roundoff(rng, nser):
+    """time arrays of `nser` series on one nominal grid; returns (times, kinds)"""
+    N = rng.choice([4, 10, 20, 50, 100, rng.randint(3, 40), rng.randint(3, 300)])
+    h = rng.choice([0.1, 0.1, 0.1, 0.01, 0.05, 0.2, 0.3, 0.025, 1.0 / 3.0, 0.7, 0.5])
+    o = rng.choice([0.0, 0.0, 0.0, 10.0, -3.5, 100.0, 0.3])
+    same_end = rng.random() < 0.65
+    same_start = rng.random() < 0.5
+    times, kinds = [], []
+    for j in range(nser):
+        m = rng.choice([1, 1, 1, 1, 2, 5])
+        lo = 0 if same_start else rng.randint(0, 3)
+        last = N if same_end else N - rng.randint(0, 2)
+        lo = min(lo, last - 1)
+        if (last - lo) // m < 1:
+            m = 1
+        if same_end:
+            lo += (last - lo) % m                       # the last sample of every series is the nominal instant o + N*h
+        cnt = (last - lo) // m + 1
+        kind = rng.choice(ROUNDOFF_KINDS)
+        times.append(roundoff_times(o, h, lo, m, cnt, kind))
+        kinds.append(kind)
+    return times, kinds
+
+
+RESARR_KINDS = ["series", "series", "series", "series-cut", "arange-rec", "arange-rec", "arange-half", "linspace", "end-up", "end-up",
+                "end-down", "start-down", "rel1e-10"]
+
+
+def gen_resarr(rng, tt):
+    """a time array to resample the series with time arrays `tt` to; returns (kind, values)"""
+    arrs = [np.array(t, dtype=float) for t in tt]
+    cs, ce = max(a[0] for a in arrs), min(a[-1] for a in arrs)
+    dt = min(float(np.mean(np.diff(a))) for a in arrs)
+    kind = rng.choice(RESARR_KINDS)
+    a = arrs[rng.randrange(len(arrs))]
+    if not ce > cs:
+        kind = "series"
+    cut = a[(a >= cs) & (a <= ce)]
+    if kind == "series":
+        r = a
+    elif kind == "series-cut":
+        r = cut
+    elif kind == "arange-rec":
+        r = np.arange(cs, ce + dt, dt)                  # what the refusal message of `export` recommends
+    elif kind == "arange-half":
+        r = np.arange(cs, ce + dt / 2, dt)
+    elif kind == "linspace":
+        r = np.linspace(cs, ce, int(round((ce - cs) / dt)) + 1)
+    else:
+        r = np.array(cut if len(cut) >= 2 and rng.random() < 0.6 else np.linspace(cs, ce, int(round((ce - cs) / dt)) + 1))
+        if kind == "end-up":
+            r[-1] = np.nextafter(ce, np.inf) if rng.random() < 0.6 else ce + 4 * np.spacing(abs(ce))
+        elif kind == "end-down":
+            r[-1] = np.nextafter(ce, -np.inf)
+        elif kind == "start-down":
+            r[0] = np.nextafter(cs, -np.inf)
+        else:
+            r = r * (1.0 + 1.0e-10)
+    if len(r) < 2 or np.any(np.diff(r) <= 0):
+        kind, r = "series", a
+    return kind, [float(v) for v in r]
+
+
 def gen_e2e(rng, corner=None):
     """one export/reload case (JSON-serialisable); corner='close': series on one time grid computed in different ways"""
     exact = rng.random() < 0.4
@@ -1367,6 +1472,10 @@ def gen_e2e(rng, corner=None):
     if corner == "close":
         source = rng.choice(["mem", "mem", "mem", "mem", "pkl", "pkl", "h5", "ts", "dat"])
         nser = rng.choice([2, 2, 3, 4])
+        exact = False
+    if corner == "resarr":
+        source = rng.choice(["mem"] * 6 + ["pkl", "pkl", "h5", "h5", "ts", "dat"])
+        nser = rng.choice([2, 2, 2, 3, 4])
         exact = False
     if source == "mem":
         fam = rng.choice(["ident", "ident", "ident", "lattice", "offlattice", "samespan", "diffdt", "disjoint"])
@@ -1386,6 +1495,9 @@ def gen_e2e(rng, corner=None):
     if corner == "close":
         times, close_kinds, close_twin = gen_close(rng, nser)
         fam, big = "close", False
+    if corner == "resarr":
+        times, roundoff_kinds = gen_roundoff(rng, nser)
+        fam, big = "roundoff", False
     times = [[float(v) for v in t] for t in times]
     scale = rng.choice([1e-3, 1.0, 1.0, 37.5, 1e4, 1e6, 1.0, 37.5, 2.0 ** 100, 2.0 ** -100, 2.0 ** 200, 2.0 ** -200])
     ext = rng.choice(EXTS + [".pickle"] if rng.random() < 0.1 else EXTS)
@@ -1444,14 +1556,20 @@ def gen_e2e(rng, corner=None):
     kwj = {}
     tt = [s["t"] for s in series]
     cs, ce = max(t[0] for t in tt), min(t[-1] for t in tt)
+    resarr_kind = None
     if corner == "close":
         if close_twin is not None:
             kwj["twin"] = close_twin
+    elif corner == "resarr":
+        resarr_kind, vals = gen_resarr(rng, tt)
+        kwj["resample"] = ["arr", vals]
     elif rng.random() < 0.35:
         a, b = gen_twin(rng, tt)
         kwj["twin"] = [float(a), float(b)]
     k = rng.random()
-    if k < 0.15:
+    if corner == "resarr":
+        pass
+    elif k < 0.15:
         span = (ce - cs) if ce > cs else (tt[0][-1] - tt[0][0])
         kwj["resample"] = ["step", float(span / rng.choice([2, 3, 4, 7, 10]))]
     elif k < 0.25 and "twin" not in kwj and ce > cs:
@@ -1477,6 +1595,9 @@ def gen_e2e(rng, corner=None):
         case["subdir"] = False               # a bare file name has no directory that could be missing
     if corner == "close":
         case["close_kinds"] = close_kinds
+    if corner == "resarr":
+        case["roundoff_kinds"] = roundoff_kinds
+        case["resarr_kind"] = resarr_kind
     # ---- the same thing spelled differently, boundary values, histories ------------------------------------------------------------
     sp = {}
     if "twin" in kwj and rng.random() < 0.5:
@@ -1522,7 +1643,7 @@ def gen_e2e(rng, corner=None):
         if set(kwj) <= {"twin"} and not case["force"] and rng.random() < 0.08:
             case["nonfinite"] = [[rng.randrange(len(series)), rng.randrange(1000), rng.choice(["nan", "inf", "ninf"])]
                                  for _ in range(rng.randint(1, 2))]
-    if rng.random() < 0.1:
+    if rng.random() < 0.1 and corner != "resarr":
         # the GUI's entry point qats.app.funcs.export_to_file(filename, db, names, twin, fargs)
         case["entry"] = "funcs"
         case.update(force=False, exist_ok=True, basename=False)
@@ -1656,6 +1777,21 @@ def corner_cases():
     cl.update(source="pkl", ext=".pkl", family="close", history="fresh",
               series=[dict(name="tension", file="r1/c.pkl", t=ta, x=xa, dtg=None), dict(name="offset", file="r2/c.pkl", t=tb, x=xb, dtg=None)])
     out.append(cl)
+    # `resample` given as the time array of one of the selected series / as the arange the refusal message recommends, when that
+    # array ends beyond the end of another series by round-off only (arange(0.3, 10.05, 0.1)[-1] = 10.000000000000004 > 10.0):
+    # refused without touching the target, or every series written with that very array
+    ra = [float(v) for v in np.linspace(0.0, 10.0, 21)]
+    rb = [float(v) for v in np.arange(0.3, 10.05, 0.1)]
+    rc = [float(v) for v in np.arange(98) / 10.0 + 0.3]                 # ends at 10.0 exactly
+    xra = [float(3.0 + np.sin(v)) for v in ra]
+    xrb = [float(-2.0 + np.cos(v)) for v in rb]
+    xrc = [float(0.5 * v) for v in rc]
+    for ext in EXTS:
+        out.append(mk([("A", ra, xra), ("B", rb, xrb)], ext=ext, family="roundoff", kw={"resample": ["arr", rb]}, preexisting=(ext == ".dat")))
+        out.append(mk([("B", rb, xrb), ("A", ra, xra)], ext=ext, family="roundoff", kw={"resample": ["list", rb]}))
+        out.append(mk([("A", ra, xra), ("C", rc, xrc)], ext=ext, family="roundoff", kw={"resample": ["arr", rc]}))
+        out.append(mk([("A", ra, xra), ("B", rb, xrb), ("C", rc, xrc)], ext=ext, family="roundoff", select=["C", "A"],
+                      kw={"resample": ["arr", [float(v) for v in np.arange(0.3, 10.0 + 0.1, 0.1)]]}))
     # known findings
     out.append(mk([("time_lag", t4, [1.0, 2.0, 3.0, 4.0]), ("b", t4, [5.0, 6.0, 7.0, 8.0])], ext=".dat"))             # F19
     out.append(mk([("Timer", t4, [1.0, 2.0, 3.0, 4.0])], ext=".dat"))                                                # F19
@@ -1887,6 +2023,20 @@ def eval_step(db, dbx, case, root, tdir, shared):
                 m = (t0 >= kw["twin"][0]) & (t0 <= kw["twin"][1])
                 t0, x0 = t0[m], x0[m]
             direct[k] = (t0, x0)
+    # ... and for an in-memory series resampled to a specified time array and nothing else: that very array and the linear
+    # interpolation of the arrays the series was built from (only where the array lies inside every selected series' span)
+    direct_rs = None
+    rsj = case["kw"].get("resample")
+    if case["source"] == "mem" and set(case["kw"]) == {"resample"} and rsj[0] in ("arr", "list") and len(rsj[1]) >= 2:
+        arrs = mem_arrays(case)
+        ra = np.array([float(v) for v in rsj[1]])
+        direct_rs = OrderedDict()
+        for k in keys:
+            t0, x0 = arrs[[id(s) for s in case["series"]].index(id(ser_by_key[k]))]
+            if not (np.all(np.diff(t0) > 0) and ra.min() >= t0[0] and ra.max() <= t0[-1] and np.all(np.isfinite(x0))):
+                direct_rs = None
+                break
+            direct_rs[k] = (ra, np.interp(ra, t0, x0), max(1.0, float(np.max(np.abs(x0)))))
     # target
     sub = os.path.join(tdir, "newdir") if case["subdir"] else tdir
     target = os.path.join(sub, case.get("target", "out") + ext)
@@ -2085,6 +2235,17 @@ def eval_step(db, dbx, case, root, tdir, shared):
                     fails.append(("without options other than a window the reloaded file holds the samples the series was built from (inside the "
                                   "window), at the format's precision", dict(series=n, t=t0.tolist()[:6], x=x0.tolist()[:6]),
                                   dict(series=n, t=tg.tolist()[:6], x=xg.tolist()[:6]), dict(series=n, **xtra)))
+            if direct_rs is not None and not forced:
+                t0, x0, sc = direct_rs[k]
+                rt0, at0, rx0, ax0 = tolerances(fmt, t0, x0)
+                okd = len(tg) == len(t0) and len(xg) == len(x0) and \
+                    (bool(np.all(np.abs(tg - t0) <= at0 + rt0 * np.abs(t0))) or (ext == ".h5" and not is_uniform(t0))) and \
+                    bool(np.all(np.abs(xg - x0) <= 1e-9 * sc + ax0 + max(rx0, 1e-12) * np.abs(x0) + 2e-7 * sc * (ext in (".ts", ".dat"))))
+                if not okd:
+                    fails.append(("an export resampled to a specified time array (no other option) holds that time array and the linear "
+                                  "interpolation of the samples the series was built from, at the format's precision",
+                                  dict(series=n, n=len(t0), t=t0.tolist()[:6], x=x0.tolist()[:6]),
+                                  dict(series=n, n=len(tg), t=tg.tolist()[:6], x=xg.tolist()[:6]), dict(series=n, **xtra)))
         # forced resampling: independent reading of "resampled to the common window"
         if forced:
             sel = OrderedDict((k, db.get(ind=db.register_keys.index(k), store=False)) for k in keys)     # each series read on its own
@@ -2198,7 +2359,8 @@ def run_e2e(chk, case):
                          ("nonfinite", "yes" if case.get("nonfinite") else None), ("delim", repr(case["delim"]) if case.get("delim") else None),
                          ("then", "%d more" % len(case["then"]) if case.get("then") else None),
                          ("close-times", "%s -> %s %s" % ("+".join(sorted(set(case["close_kinds"]))), ext, info.get("outcome", "?"))
-                          if case.get("close_kinds") else None)):
+                          if case.get("close_kinds") else None),
+                         ("resample-array", "%s -> %s" % (case.get("resarr_kind"), info.get("outcome", "?")) if case.get("resarr_kind") else None)):
             if val not in (None, "f8", "method", "kw"):
                 chk.dist("e2e-class:%s=%s" % (lab, val))
         for k, v in (case.get("spell") or {}).items():
@@ -2255,6 +2417,9 @@ def run(chk):
     for _ in range(220 if chk.quick else 2500):
         run_e2e(chk, gen_e2e(rng, corner="close"))
     writers_close(chk, rng, 150 if chk.quick else 2000)
+    # `resample` given as a time array related to the series' own time arrays (ends on / beyond a series' end by round-off)
+    for _ in range(260 if chk.quick else 3000):
+        run_e2e(chk, gen_e2e(rng, corner="resarr"))
 
 
 def replay(rp):
